@@ -11,6 +11,10 @@ Three case kinds:
            random back-pressure; the monitor judges the transaction packets handed to the queue
   loopmux  the same through the REAL SuperSpeedEndpointMultiplexer (protocol/endpoint.py) with a second, idle
            endpoint interface, as USBSuperSpeedDevice wires it
+
+Profile `wrap` (wrap_cases, all three kinds): >= 72 short packets per case so that the 5-bit sequence number wraps at
+least twice, with retries, lost packets, ZLPs, ACKs without IN request and NRDY/ERDY episodes placed at the sequence
+numbers 30, 31, 0, 1.
 """
 from harness.common.framework import Case
 from harness.common.rng import Rng
@@ -38,7 +42,14 @@ RULE = ("cases = (max_packet_size in 8/16/32/64(/1024 thorough), endpoint 1..15)
         "packets, queue latency 0..lmax), closed loop with the REAL TransactionPacketGenerator (direct connect as in "
         "USB3ProtocolLayer) and through the REAL SuperSpeedEndpointMultiplexer (as in USBSuperSpeedDevice) with random "
         "header-queue back-pressure <= lmax in {0,1,2,5,12}; 64 directed closed-loop races (completing word -3..+10 cycles "
-        "around the IN request x queue latency 0/1/3/8 x direct/mux)")
+        "around the IN request x queue latency 0/1/3/8 x direct/mux); 30 (thorough 90) sequence-number wrap cases over all "
+        "three kinds: 72..84 (thorough ..104) packets from 1..8 byte transfers, max_packet_size 8/16, fast host, producer "
+        "always ahead, so the 5-bit sequence number wraps at least twice; at the packets carrying the numbers 30, 31, 0, 1 of "
+        "every wrap a producer-side event (ZLP / NRDY-ERDY episode / none) and a host-side event (Retry bit / lost packet = "
+        "repeated number / Retry bit with the next number / ACK without IN request / none) placed by rotation over the case "
+        "index so that all 15 combinations occur at each of the four numbers, further events at random elsewhere; the host "
+        "view of the monitor numbers the accepted packets modulo 32 (coverage tags seq30:/seq31:/seq0:/seq1: x "
+        "data/zlp/nrdy/erdy/retry-rty/retry-lost/retry-rtynext/ack-nump0/ack-nump1, seq-wraps=2, pkts>=70)")
 ASSUMPTIONS = [
     "producer: stream.valid is a byte-prefix mask, a partial word only together with last, word held until ready",
     "host: one outstanding data packet; ACK TPs answer the packet last sent; no IN request while flow-controlled by NRDY",
@@ -139,6 +150,31 @@ def gen_cases(tier, rng):
         kind = "alone" if k % 3 == 0 else ("loop" if k % 3 == 1 else "loopmux")
         out.append({"mps": mps, "ep": rng.range(1, 15), "mode": "wild" if k % 8 == 7 else "script", "kind": kind,
                     "lmax": rng.choice([0, 1, 2, 5, 12]), "seed": rng.u64(), "k": k})
+    out += wrap_cases({"quick": 30, "widen": 30}.get(tier, 90), rng, tier)
+    return out
+
+
+HOT = (30, 31, 0, 1)                              # sequence numbers around the 5-bit wrap
+WRAP_P = ["zlp", "nrdy", "none"]                  # producer-side event at a packet
+WRAP_H = ["rty", "lost", "rtynext", "nump0", "none"]   # host-side event at a packet
+
+
+def wrap_cases(n, rng, tier="quick"):
+    """Sequence-number wrap-around cases: 72..100 packets from 1..8 byte transfers (small max_packet_size, fast host,
+    producer always ahead), so the 5-bit sequence number wraps at least twice; at the packets carrying the numbers
+    30, 31, 0, 1 of every wrap a producer-side event (ZLP = the packet is the ZLP after a full packet that ends a
+    transfer / NRDY-ERDY episode = the word completing the packet is withheld until the NRDY / none) and a host-side
+    event (Retry bit / lost packet = repeated number without Retry bit / Retry bit with the next number / ACK without
+    IN request / none) are placed by rotation over the case index `wrap`, so that 15 consecutive indices see every
+    combination at every one of the four numbers; further events at random elsewhere.  All three kinds."""
+    out = []
+    for w in range(n):
+        kind = ("alone", "loop", "loopmux")[w % 3]
+        mps = 16 if (w // 3) % 4 == 3 else 8
+        if tier == "thorough" and w % 15 == 14:
+            mps = rng.choice([32, 1024])
+        out.append({"mps": mps, "ep": rng.range(1, 15), "mode": "script", "kind": kind, "lmax": rng.choice([0, 0, 1, 2]),
+                    "seed": rng.u64(), "k": 0, "wrap": w, "npk": rng.range(72, 84) if tier != "thorough" else rng.range(72, 104)})
     return out
 
 
@@ -184,9 +220,10 @@ class PyGen:
 class Agent:
     """Generates the inputs of cycle t from what was observed up to cycle t-1."""
 
-    def __init__(self, rng, mps, ep, mode, k, kind="alone", lmax=3, race=None):
+    def __init__(self, rng, mps, ep, mode, k, kind="alone", lmax=3, race=None, wrap=None, npk=76):
         self.r, self.mps, self.ep, self.mode = rng, mps, ep, mode
         self.kind, self.lmax, self.race = kind, lmax, race
+        self.wrap, self.hold, self.hev, self.pidx, self.npk, self.done_at, self.holding = wrap, set(), {}, 0, None, None, False
         # producer
         self.continuous = (k % 11 == 5)
         # "benign" profile: stays clear of the recorded defects for as long as the producer has data (producer always
@@ -243,6 +280,42 @@ class Agent:
             self.tease_from = (mps - 2 + 3) // 4
             self.words = [((1 << len(first[j:j + 4])) - 1, int(j + 4 >= mps - 2),
                            sum(b << (8 * q) for q, b in enumerate(first[j:j + 4]))) for j in range(0, mps - 2, 4)] + self.words
+        if wrap is not None:
+            self.init_wrap(rng, mps, wrap, npk)
+
+    def init_wrap(self, rng, mps, wrap, npk):
+        """see wrap_cases: many short packets, events placed at the packets that carry sequence numbers 30, 31, 0, 1"""
+        self.continuous = self.benign = self.teaser = False
+        self.pgap, self.pstart, self.hdelay = 0, 0, rng.range(0, 4)
+        self.rdy_kind, self.rdy_p = rng.weighted([(5, ("all", 95)), (2, ("rand", 95)), (1, ("rand", 80))])
+        self.p_retry = rng.choice([0, 3, 6])
+        pev, q = {}, 0
+        for w in range(1, npk // 32 + 2):
+            for j in range(4):
+                n = 32 * w - 2 + j                      # the packet that carries sequence number HOT[j]
+                pev[n] = WRAP_P[(wrap + q) % 3]
+                self.hev[n] = WRAP_H[(wrap // 3 + q) % 5]
+                q += 1
+        for n in range(npk):
+            if n not in pev and rng.chance(5):
+                pev[n] = rng.choice(["zlp", "nrdy"])
+                self.hev[n] = rng.choice(WRAP_H)
+        self.words, n = [], 0
+        while n < npk:
+            # the packet n + 1 is to be a ZLP: a transfer of exactly max_packet_size bytes takes the numbers n, n + 1
+            full = pev.get(n + 1) == "zlp" and mps <= 16
+            ln = mps if full else rng.range(1, min(8, mps - 1))
+            data = rng.bytes(ln)
+            for j in range(0, ln, 4):
+                w = data[j:j + 4]
+                self.words.append(((1 << len(w)) - 1, int(j + 4 >= ln), sum(b << (8 * q) for q, b in enumerate(w))))
+            if pev.get(n) == "nrdy":
+                self.hold.add(len(self.words) - 1)      # withheld until the host has been told NRDY
+            n += 2 if full else 1
+        self.npk = n
+
+    def finished(self, t):
+        return self.done_at is not None and t > self.done_at + 40
 
     def ready_bit(self):
         if self.rdy_kind == "all":
@@ -260,7 +333,17 @@ class Agent:
         row = [0] * len(IN_NAMES)
         # producer ("teaser": the word that ends a transfer is withheld until shortly after the next NRDY, so that the
         # packet completes while that NRDY is still in the transaction packet generator, or just after)
-        if (self.teaser and not self.present and self.wi < len(self.words) and self.words[self.wi][1]
+        if self.wrap is not None and not self.present and self.wi in self.hold:
+            # withheld until 0..lmax+3 cycles after the NRDY that answers the IN request for this packet
+            self.holding = True
+            if self.release_at is None:
+                self.held += 1
+                if self.held > 150:
+                    self.release_at = t
+            if self.release_at is not None and t >= self.release_at:
+                self.present, self.release_at, self.held, self.holding = True, None, 0, False
+                self.hold.discard(self.wi)
+        elif (self.teaser and not self.present and self.wi < len(self.words) and self.words[self.wi][1]
                 and self.wi >= self.tease_from):
             if self.release_at is None:
                 self.held += 1
@@ -308,6 +391,32 @@ class Agent:
                 hs = (self.ep, 0, self.dseq, r.choice([1, 1, 1, 2, 16]))
                 self.issued_in = True
                 self.hstate, self.tmo = "wait", 0
+        elif self.hstate == "respond" and self.wrap is not None:
+            ev = None
+            if self.hdelay > 0:
+                self.hdelay -= 1
+            else:
+                ev = self.hev.pop(self.pidx, "none")
+                if ev in ("none", "nump0") and r.chance(self.p_retry):
+                    self.hev[self.pidx] = ev
+                    ev = r.choice(["rty", "lost", "rtynext"])
+                if ev in ("rty", "lost", "rtynext"):
+                    if r.chance(25):
+                        self.hev[self.pidx] = r.choice(["rty", "lost", "rtynext"])     # asked for once more afterwards
+                    hs = {"rty": (self.ep, 1, self.dseq, 1), "lost": (self.ep, 0, self.dseq, 1),
+                          "rtynext": (self.ep, 1, (self.dseq + 1) % 32, 1)}[ev]
+                    self.hstate, self.tmo = "wait", 0
+                else:
+                    self.dseq = (self.dseq + 1) % 32
+                    self.pidx += 1
+                    nump = 0 if ev == "nump0" else r.choice([1, 1, 1, 1, 2, 0])
+                    hs = (self.ep, 0, self.dseq, nump)
+                    if nump:
+                        self.hstate, self.tmo, self.issued_in = "wait", 0, True
+                    else:
+                        self.hstate, self.hdelay = "idle", r.range(0, 6)
+                    if self.pidx >= self.npk and self.done_at is None:
+                        self.done_at = t
         elif self.hstate == "respond":
             if self.hdelay > 0:
                 self.hdelay -= 1
@@ -340,6 +449,8 @@ class Agent:
         if self.present and o[O["s_ready"]]:
             self.present = False
             self.wi += 1
+        if self.wrap is not None and self.holding and o[O["send_nrdy"]] and self.release_at is None:
+            self.release_at = t + 1 + self.r.choice([0, 0, 1, 2, 3, self.lmax + 1, self.lmax + 3])
         if self.teaser and o[O["send_nrdy"]] and self.release_at is None:
             self.release_at = t + 1 + self.r.choice([0, 0, 1, 2, 3, self.lmax, self.lmax + 1, self.lmax + 3])
         # has an ERDY for this endpoint been handed to the header queue in this cycle?
@@ -355,15 +466,16 @@ class Agent:
                     self.q_wait += 1
         if erdy_sent:
             self.flow = False
-            self.hdelay = self.r.range(0, 10)
+            self.hdelay = self.r.range(0, 3 if self.wrap is not None else 10)
         if self.mode == "wild":
             if o[O["tx_ep"]] == self.ep:
                 self.dseq = o[O["tx_seq"]]
             return
         if o[O["tx_ep"]] == self.ep and o[O["tx_length"]]:
             self.dseq = o[O["tx_seq"]]          # the host's belief follows the device (see module doc)
+        rmax = 2 if self.wrap is not None else 6
         if o[O["tx_zlp"]]:
-            self.hstate, self.hdelay = "respond", self.r.range(0, 6)
+            self.hstate, self.hdelay = "respond", self.r.range(0, rmax)
         elif self.hstate == "wait":
             if self.issued_in and o[O["send_nrdy"]]:
                 self.flow, self.flow_t = True, 0
@@ -376,7 +488,7 @@ class Agent:
                     self.hstate, self.hdelay = "idle", self.r.range(0, 20)
         if self.hstate == "recv":
             if (o[O["tx_valid"]] and row[I["tx_ready"]] and o[O["tx_last"]]) or not o[O["tx_valid"]]:
-                self.hstate, self.hdelay = "respond", self.r.range(0, 6)
+                self.hstate, self.hdelay = "respond", self.r.range(0, rmax)
 
 
 def run_reactive(dut, inputs, outputs, agent, ncycles, fixed=None, domain="ss"):
@@ -401,6 +513,8 @@ def run_reactive(dut, inputs, outputs, agent, ncycles, fixed=None, domain="ss"):
             rows.append(outs)
             if fixed is None:
                 agent.observe(t, row, outs)
+                if agent.finished(t):
+                    break
             await ctx.tick(domain)
 
     s.add_testbench(tb)
@@ -434,11 +548,21 @@ def monitor(mps, ep, stim, rows, kind="alone"):
     avail_since = None
     prev = None
     last_full = False      # the last delivered packet was max size and ended its transfer exactly
+    nacc = 0               # packets the host has accepted; packet number n carries sequence number n mod 32
+    acked = None           # the packet the host acknowledged last
 
     noted = []             # failures that do not end the evaluation (wrong endpoint number in NRDY / ERDY)
 
     def fail(t, sig, what):
-        return noted + [{"cycle": t, "sig": sig, "what": what}], sorted(tags)
+        return noted + [{"cycle": t, "sig": sig, "what": what}], sorted(tags | wrap_tags())
+
+    def hot(what):
+        # coverage of the 5-bit wrap: what happened while the host expected / held sequence number 30, 31, 0, 1 (wraps only)
+        if hseq in HOT and nacc >= 30:
+            tags.add("seq%d:%s" % (hseq, what))
+
+    def wrap_tags():
+        return {"seq-wraps=%d" % min(3, nacc // 32), "pkts>=70" if nacc >= 70 else "pkts>=33" if nacc >= 33 else "pkts<33"}
 
     def check_packet(t, p):
         nonlocal outstanding, want_retx, pending_in
@@ -461,6 +585,12 @@ def monitor(mps, ep, stim, rows, kind="alone"):
         outstanding = p
         want_retx = False
         n = len(p["bytes"])
+        hot(kind)
+        if (acked is not None and p["seq"] == acked["want_seq"] and p["seq"] != hseq and p["bytes"] == acked["bytes"]
+                and p["zlp"] == acked["zlp"]):
+            return "ss-in-acked-resent", ("the %s packet with sequence number %d (packet number %d of the stream) was "
+                                          "acknowledged by an ACK TP naming the next sequence number %d, but is sent again"
+                                          % (kind, p["seq"], nacc - 1, hseq))
         if p["bytes"] != accepted[ndeliv:ndeliv + n]:
             return "ss-in-data", ("packet payload %s is not the next %d bytes of the stream %s"
                                   % (p["bytes"][:16], n, accepted[ndeliv:ndeliv + n][:16]))
@@ -516,6 +646,7 @@ def monitor(mps, ep, stim, rows, kind="alone"):
                     tags.add("host:in")
                     if o[O["send_nrdy"]]:
                         tags.add("dev:nrdy")
+                        hot("nrdy")
                         flow = True
                     elif flow:
                         # the host polls although it is flow-controlled (its ERDY time-out): outside the environment
@@ -527,18 +658,24 @@ def monitor(mps, ep, stim, rows, kind="alone"):
                 adv = (i[I["next_seq"]] == (hseq + 1) % 32) and not i[I["retry"]]
                 if adv and not want_retx:
                     tags.add("host:ack-nump%d" % min(1, i[I["nump"]]))
+                    hot("ack-nump%d" % min(1, i[I["nump"]]))
                     n = len(outstanding["bytes"])
                     last_full = (n == mps and (ndeliv + n) in ends)
                     ndeliv += n
                     hseq = (hseq + 1) % 32
-                    outstanding = None
+                    nacc += 1
+                    acked, outstanding = outstanding, None
                     if i[I["nump"]]:
                         if o[O["send_nrdy"]]:
+                            hot("nrdy")
                             flow = True
                         else:
                             pending_in = t
                 else:
                     tags.add("host:retry")
+                    hot("retry-" + ("rty" if i[I["retry"]] and i[I["next_seq"]] == hseq else "lost" if i[I["next_seq"]] == hseq
+                                    else "rtynext" if i[I["retry"]] and i[I["next_seq"]] == (hseq + 1) % 32
+                                    else "other"))
                     want_retx = True
                     pending_in = t
         # transaction packets: which requests does the generator take, which packets does it complete
@@ -585,6 +722,8 @@ def monitor(mps, ep, stim, rows, kind="alone"):
         if erdy_sent:
             if not flow:
                 tags.add("dev:erdy-unsolicited")
+            else:
+                hot("erdy")
             flow = False
         if done_pkt is not None:
             bad = check_packet(t, done_pkt)
@@ -618,7 +757,7 @@ def monitor(mps, ep, stim, rows, kind="alone"):
             if avail_since is not None:
                 tags.add("erdy:latency<=%d" % (4 * ((t - avail_since + 3) // 4)))
             avail_since = None
-    return noted, sorted(tags)
+    return noted, sorted(tags | wrap_tags())
 
 
 # ------------------------------------------------------------------------------------------ run
@@ -679,8 +818,11 @@ def run_case(desc):
         names_in, names_out = IN_NAMES_LOOP, OUT_NAMES_LOOP
     rng = Rng(desc["seed"])
     lmax = desc.get("lmax")
-    agent = Agent(rng, mps, ep, desc["mode"], desc.get("k", 0), kind, 3 if lmax is None else lmax, desc.get("race"))
+    agent = Agent(rng, mps, ep, desc["mode"], desc.get("k", 0), kind, 3 if lmax is None else lmax, desc.get("race"),
+                  desc.get("wrap"), desc.get("npk", 76))
     ncycles = min(6000, 200 + 14 * len(agent.words) + (400 if mps <= 64 else 3000))
+    if agent.wrap is not None:
+        ncycles = 6000          # the run ends 40 cycles after the host has accepted the last planned packet
     stim, rows = run_reactive(top, ins, outs, agent, ncycles, fixed=desc.get("stimulus"))
     fails, tags = [], []
     if desc["mode"] == "script":
@@ -696,5 +838,8 @@ def run_case(desc):
             tags.append("profile=benign")
         if agent.teaser:
             tags.append("profile=teaser")
+        if agent.wrap is not None:
+            tags.append("profile=wrap")
+            tags.append("wrap:finished" if agent.done_at is not None or desc.get("stimulus") else "wrap:unfinished")
     aw = max(0, (mps // 4 - 1).bit_length())
     return Case([mps, ep, aw, KINDS[kind]], stim, rows, fails, tags, desc, names_in, names_out)
